@@ -68,7 +68,8 @@ FORTRAN_ONLY = [("unique", "hoisted"), ("unique", "a"), ("unique", "A"), ("refco
 
 PY_RESERVED_SELF = {"t", "dt", "next_phase", "_numpy", "_functions", "phase_transition_table", "run",
                     "run_single_step", "set_up", "StateComputed", "StepCompleted", "StepFailed"}
-F_RESERVED = {"dagrt_state", "dagrt_nan", "dagrt_next_phase", "dagrt_state_type", "dagrt_sub_state"}
+# dagrt_t / dagrt_dt: dummy arguments of the generated initialize routine and members of the state type
+F_RESERVED = {"dagrt_state", "dagrt_nan", "dagrt_next_phase", "dagrt_state_type", "dagrt_sub_state", "dagrt_t", "dagrt_dt"}
 
 F_IDENT = re.compile(r"^[A-Za-z][A-Za-z0-9_]*$")
 
@@ -155,7 +156,10 @@ class FTarget:
         return None
 
     def scope_key(self, op, ident):
-        return ident.casefold()
+        # a state member is named by its last component: dagrt_state%p_a and a local p_a are the same Fortran name
+        # in two scopes; the generator hands all of them out of one pool, and initialize/shutdown use the member
+        # names as dummy arguments next to locals
+        return ident.split("%")[-1].casefold()
 
     def storage_ok(self, op, ident):
         kind, name = op[0], op[1]
@@ -166,7 +170,8 @@ class FTarget:
         return "%" not in ident
 
     def reserved(self, ident):
-        return ident.casefold() in F_RESERVED
+        # the members the generator itself defines (time, step size) are reserved for everything but <t> and <dt>
+        return "%" not in ident and ident.casefold() in F_RESERVED
 
 
 def run_sequence(target_cls, seq):
